@@ -4,7 +4,7 @@
    modelled streams; fields carry Ok/Err/Panic/OutOfFuel, the ledger every Vec::with_capacity.
    Every loop of the model runs on fuel |file| + 1 ([fuel_of]). *)
 From RM Require C08.Model C08.Proofs.
-From RM Require Import C01.Model C01.Proofs C01.Driver C01.Final C01.Agree C01.QModel C01.QProofs C01.LModel C01.LProofs C01.LayoutPins C01.ConstIndex Gen.C01Sites C01.Sites C01.SitesCheck.
+From RM Require Import C01.Model C01.Proofs C01.Driver C01.Final C01.Agree C01.QModel C01.QProofs C01.LModel C01.LProofs C01.LayoutPins C01.ConstIndex C01.SModel C01.SProofs Gen.C01Sites C01.Sites C01.SitesCheck.
 Open Scope Z_scope.
 
 (* No modelled site panics, for any byte string, in debug and release builds (fixed code). *)
@@ -243,6 +243,18 @@ Theorem c01_lookups_total : forall p file, wf_bytes file -> blen file < T62 ->
 Proof. exact run_lookups_total. Qed.
 Print Assumptions c01_lookups_total.
 
+(* Minidump::get_memory (Memory64 list if it parses, else the memory list, else none) and MinidumpThread::stack_memory (the stack read at
+   parse time, else the region of that list found at stack.start_of_memory_range): the compared field TS never traps, names a list
+   kind in 0..2 and per thread -2 / -1 / a region index; and a stack found through the fallback is a position of the list *)
+Theorem c01_stack_source_total : forall p file, wf_bytes file -> blen file < T62 ->
+  forall tag f, In (tag, f) (run_stacks p file) -> (forall t, f <> FPan t) /\ f <> FNoFuel.
+Proof. exact run_stacks_total. Qed.
+Print Assumptions c01_stack_source_total.
+Theorem c01_stack_fallback_sound : forall p descs addr i, wf_descs descs ->
+  lookups_at p descs [addr] = Ok [i] -> i = -1 \/ 0 <= i < blen descs.
+Proof. exact stack_fallback_sound. Qed.
+Print Assumptions c01_stack_fallback_sound.
+
 (* ---- round 5: the file layout the models read with — 35 record sizes, 75 field offsets/widths (nested location descriptors
    included), 5 array lengths — equals what Gen/Layouts.v says, which translate/format_layouts.py regenerates from the struct
    definitions of minidump-common/src/format.rs on every run; and every row of Model.ctx_table (CONTEXT_* size, offset and width
@@ -332,7 +344,7 @@ Definition c01_cover_index :=
    c01_header_total, c01_exception_print_total, c01_xstate_iter_total, c01_misc_info_total, c01_thread_contexts_print_total,
    c01_memory_read_in_bounds, c01_linux_kv_bounded, c01_crashpad_info_total, c01_mac_crash_info_total, c01_fixed_streams_total,
    c01_print_sites_total, c01_crash_queries_total, c01_memory_range_sound, c01_last_error_in_bounds, c01_crash_address_total,
-   c01_elf_debug_id_reads, c01_address_lookup_total, c01_get_thread_index_total, c01_lookups_total, c01_layout_pinned, c01_unloaded_lookup_in_range, c01_const_indices_in_bounds).
+   c01_elf_debug_id_reads, c01_address_lookup_total, c01_get_thread_index_total, c01_lookups_total, c01_layout_pinned, c01_unloaded_lookup_in_range, c01_const_indices_in_bounds, c01_stack_source_total, c01_stack_fallback_sound).
 Example c01_nonvacuous_queries :
   memory_range Debug 18446744073709551599 16 = Ok (Some (18446744073709551599, 18446744073709551614)) /\
   memory_range Debug 18446744073709551600 16 = Ok None /\ memory_range Debug 5 0 = Ok None /\
